@@ -8,7 +8,10 @@ from pyvc.sym import qforall
 from contracts.common import add_common, WF, wf_theory, desc, T_idx
 
 VERIFY = ["trees.transform.filter_by_length", "trees.trees.delete_terminal"]
-TRUSTED = ["contract of trees.terminals used at the call site (verified under C19); wf_theory (see C19)"]
+TRUSTED = ["contract of trees.terminals used at the call site (verified under C19); wf_theory (see C19)",
+           "insert step: locality of the token list -- writing a node that was not allocated (and is not linked) does not "
+           "change T(tree); the call sites prove that nothing else was written",
+           "insert step: the lookup in the parameter-file table (a function attribute) is an opaque pair (word, tag)"]
 ASSUMPTIONS = ["filtervalue is an integer (misc.options_dict converts digit strings), filteroperator a string"]
 
 
@@ -186,3 +189,187 @@ def lemma_renumbered_without_holes(reg, repo):
 
 
 LEMMAS = {"renumbered_without_holes": lemma_renumbered_without_holes}
+
+
+# ----------------------------------------------------------------------------------------------------------------------
+# transform.insert_terminals: one step (the body of `for terminal_num in sorted(...)`) as a block contract.
+# Extraction: the two occurrences of the table lookup `insert_terminals.terminals[tree.data['sid']][terminal_num]`
+# (a function attribute filled from the parameter file) are replaced by one opaque pair (word, tag) -- nothing else
+# is dropped.  An index outside 1..n+1 (0, negative, too large) leaves the tree untouched; an index inside inserts one
+# fresh token with that number under the root, moves the tokens numbered >= index up by one, changes nothing else.
+# ----------------------------------------------------------------------------------------------------------------------
+def lemma_insert_step(reg, repo):
+    import ast
+    from pyvc.core import Exec, State
+    from pyvc.heap import Heap
+    from pyvc.sym import VTuple, Unsupported
+    from contracts.common import terms_facts
+    add_common(reg)
+    qual = "trees.transform.insert_terminals"
+    info = repo.fns.get(qual)
+    if info is None:
+        raise Unsupported("function %s no longer exists" % qual)
+    loop = None
+    for node in ast.walk(info.node):
+        if isinstance(node, ast.For) and ast.unparse(node.target) == "terminal_num":
+            loop = node
+    if loop is None:
+        raise Unsupported("the insertion loop of insert_terminals was not found (the contract no longer binds)")
+    LOOKUP = "insert_terminals.terminals[tree.data['sid']][terminal_num]"
+    count = [0]
+
+    class Sub(ast.NodeTransformer):
+        def visit_Subscript(self, n):
+            if ast.unparse(n) == LOOKUP:
+                count[0] += 1
+                return ast.copy_location(ast.Name(id="_table_entry", ctx=ast.Load()), n)
+            return self.generic_visit(n)
+    import copy
+    body = [ast.fix_missing_locations(Sub().visit(copy.deepcopy(s))) for s in loop.body]
+    if count[0] != 2:
+        raise Unsupported("expected two table lookups in the insertion step, found %d" % count[0])
+    inner = [n for s in body for n in ast.walk(s) if isinstance(n, ast.For)]
+    if len(inner) != 1:
+        raise Unsupported("expected one renumbering loop in the insertion step, found %d" % len(inner))
+    c = Contract(target=qual, prop="C11", args={}, params={"quiet": BOOL}, loops={})
+    ex = Exec(repo, reg, info, c, prefix="C11.insert_step")
+    # the deep copy has new node identities: number the copied loop like the original one
+    orig_inner = [n for s in loop.body for n in ast.walk(s) if isinstance(n, ast.For)][0]
+    ex.loop_ords[id(inner[0])] = ex.loop_ords[id(orig_inner)]
+    H0 = Heap.fresh("I")
+    st = State(heap=H0)
+    for t in H0.typing():
+        st.assume(t)
+    tree = VRef(z3.Int(fresh_name("i_tree")))
+    tnum = VInt(z3.Int(fresh_name("i_terminal_num")))
+    word, tag = VStr(z3.String(fresh_name("i_word"))), VStr(z3.String(fresh_name("i_tag")))
+    st.env.update(dict(tree=tree, terminal_num=tnum, _table_entry=VTuple([word, tag])))
+    st.env["params"] = ex._fresh_params(st, "ip")
+    E = H0.copy()
+    ex.entry_heap = E
+    T0 = E.terms(tree)
+    j = z3.Int(fresh_name("ij"))
+    x = z3.Int(fresh_name("ix"))
+    st.assume(tree.t != 0)
+    st.assume(tobool(WF(E, tree)))
+    st.assume(E.parent_t(tree.t) == 0)
+    st.assume(tobool(wf_theory(E)))
+    st.assume(tobool(terms_facts(E, tree)))
+    # every node of the tree is allocated (so a new node is none of them)
+    st.assume(qforall([x], z3.Implies(tobool(WF(E, VRef(x))), z3.Select(E.f["alive"], x)), [tobool(WF(E, VRef(x)))]))
+    v0 = lambda m: z3.Select(E.f["val_num"], m)
+    in_T0 = lambda m: z3.And(0 <= T_idx(E, tree, VRef(m)).t, T_idx(E, tree, VRef(m)).t < T0.n,
+                             T0.get(T_idx(E, tree, VRef(m)).t).t == m)
+
+    def shifted(H, node, upto):
+        """tokens T0[0:upto] numbered >= terminal_num moved up by one; the new node carries terminal_num; every other
+        number is as before"""
+        n = z3.Int(fresh_name("sn"))
+        return qforall([n], z3.Select(H.f["val_num"], n) == z3.If(
+            n == node.t, tnum.t,
+            z3.If(z3.And(in_T0(n), T_idx(E, tree, VRef(n)).t < upto, v0(n) >= tnum.t), v0(n) + 1, v0(n))),
+            [z3.Select(H.f["val_num"], n)])
+
+    def has_num_frame(H, node):
+        n = z3.Int(fresh_name("hn"))
+        return qforall([n], z3.Select(H.f["has_num"], n) == z3.If(n == node.t, True, z3.Select(E.f["has_num"], n)),
+                       [z3.Select(H.f["has_num"], n)])
+
+    def inner_inv(S):
+        return VBool(z3.And(shifted(S.H, S.node, toint(S.it)), has_num_frame(S.H, S.node)))
+
+    # Locality of the token list (assumed, listed in TRUSTED): nodes that are not part of a tree do not influence its
+    # token list.  The second call of trees.terminals(tree) happens after the new, still unlinked node has been filled
+    # in; at both call sites the obligation is that the heap differs from the entry heap only at nodes that were not
+    # allocated then, and the result is the token list of the entry heap.
+    def untouched_on_allocated(H):
+        m = z3.Int(fresh_name("um"))
+        return qforall([m], z3.Implies(z3.Select(E.f["alive"], m), z3.And(
+            H.parent_t(m) == E.parent_t(m), H.nchild_t(m) == E.nchild_t(m),
+            z3.Select(H.f["child"], m) == z3.Select(E.f["child"], m),
+            z3.Select(H.f["has_num"], m) == z3.Select(E.f["has_num"], m),
+            z3.Select(H.f["val_num"], m) == z3.Select(E.f["val_num"], m))), [z3.Select(E.f["alive"], m)])
+
+    from pyvc.sym import TList
+    reg.add(Contract(
+        target="trees.trees.terminals", prop="C19", args=dict(tree=REF),
+        requires=lambda S, t: conj(VBool(t.t == tree.t), VBool(untouched_on_allocated(S.H))),
+        returns=lambda S, t: E.terms(tree),
+        ensures={"T_facts": lambda S, t, result: terms_facts(E, tree)},
+        result_type=TList(REF), assumed=True,
+        note="terminals(tree) == T(tree) of the heap at the start of the step, given that only nodes not allocated then "
+             "have been written since (locality of the token list: unlinked nodes do not influence it)"))
+    ex.c.loops = {ex.loop_ords[id(inner[0])]: dict(inv=inner_inv)}
+    ex.obligations = []
+    outs = ex._with_raises(st, ex.exec_block(body, st))
+    vcs = []
+    n0 = T0.n
+    in_range = z3.And(1 <= tnum.t, tnum.t <= n0 + 1)
+    for oi, o in enumerate(outs):
+        H = o.st.heap
+        if o.kind == "continue":
+            same = z3.And(*[H.f[k] == E.f[k] for k in sorted(E.f)])
+            vcs.append(("path%d.index_outside_1_to_n_plus_1_is_ignored" % oi, list(o.st.pc),
+                        z3.And(z3.Not(in_range), same)))
+            continue
+        if o.kind != "normal":
+            raise Unsupported("the insertion step leaves the loop body by %s" % o.kind)
+        node = o.st.env["node"]
+        k = z3.Int(fresh_name("ck"))
+        m = z3.Int(fresh_name("cm"))
+        strs = lambda key, r: z3.Select(H.f["val_" + key], r)
+        goals = {
+            "only_indices_1_to_n_plus_1_insert": in_range,
+            "new_token_is_fresh_and_carries_the_table_entry": z3.And(
+                node.t != 0, z3.Not(z3.Select(E.f["alive"], node.t)), H.nchild_t(node.t) == 0,
+                z3.Select(H.f["has_num"], node.t), z3.Select(H.f["val_num"], node.t) == tnum.t,
+                z3.Not(z3.Select(H.f["none_word"], node.t)), strs("word", node.t) == word.t,
+                z3.Not(z3.Select(H.f["none_label"], node.t)), strs("label", node.t) == tag.t),
+            "appended_to_the_root": z3.And(
+                H.parent_t(node.t) == tree.t, H.nchild_t(tree.t) == E.nchild_t(tree.t) + 1,
+                H.child_t(tree.t, E.nchild_t(tree.t)) == node.t,
+                z3.ForAll([k], z3.Implies(z3.And(0 <= k, k < E.nchild_t(tree.t)),
+                                          H.child_t(tree.t, k) == E.child_t(tree.t, k)))),
+            "tokens_from_the_index_on_move_up_by_one_others_keep_their_number": z3.And(
+                shifted(H, node, n0), has_num_frame(H, node)),
+            "nothing_else_changes": z3.And(
+                z3.ForAll([m], z3.Implies(m != node.t, H.parent_t(m) == E.parent_t(m))),
+                z3.ForAll([m], z3.Implies(z3.And(m != node.t, m != tree.t), z3.And(
+                    H.nchild_t(m) == E.nchild_t(m), z3.Select(H.f["child"], m) == z3.Select(E.f["child"], m)))),
+                *[z3.ForAll([m], z3.Implies(m != node.t, z3.Select(H.f[f], m) == z3.Select(E.f[f], m)))
+                  for f in sorted(E.f) if f.startswith(("val_", "has_", "none_")) and f not in ("val_num", "has_num")]),
+        }
+        for gname, g in goals.items():
+            vcs.append(("path%d.%s" % (oi, gname), list(o.st.pc), g))
+    for ob in ex.obligations:
+        vcs.append(("step.%s" % ob.name.split(".", 2)[-1], list(ob.pc), ob.goal))
+    return vcs
+
+
+lemma_insert_step.target = "trees.transform.insert_terminals"
+LEMMAS["insert_step"] = lemma_insert_step
+
+
+def lemma_insert_numbers_without_holes(reg, repo):
+    """over the step contract: if the tokens were numbered 1..n, afterwards they and the new token are numbered 1..n+1
+    (token i keeps i+1 before the insertion point and gets i+2 from it on; the new token fills the hole)"""
+    from pyvc.heap import Heap
+    E = Heap.fresh("J")
+    tree = VRef(z3.Int("j_tree"))
+    tnum, i = z3.Ints("j_tnum j_i")
+    T0 = E.terms(tree)
+    newnum = z3.Function("j_num_after", z3.IntSort(), z3.IntSort())
+    j = z3.Int(fresh_name("jj"))
+    v0 = lambda m: z3.Select(E.f["val_num"], m)
+    hyp = [z3.ForAll([j], z3.Implies(z3.And(0 <= j, j < T0.n), v0(T0.get(j).t) == j + 1)),
+           # postcondition of the step for the old tokens (all of T0 processed)
+           z3.ForAll([j], z3.Implies(z3.And(0 <= j, j < T0.n),
+                                     newnum(T0.get(j).t) == z3.If(v0(T0.get(j).t) >= tnum, v0(T0.get(j).t) + 1,
+                                                                  v0(T0.get(j).t)))),
+           1 <= tnum, tnum <= T0.n + 1, 0 <= i, i < T0.n]
+    return [("old_tokens_are_numbered_around_the_hole", hyp,
+             z3.And(newnum(T0.get(i).t) == z3.If(i + 1 < tnum, i + 1, i + 2), newnum(T0.get(i).t) != tnum,
+                    1 <= newnum(T0.get(i).t), newnum(T0.get(i).t) <= T0.n + 1))]
+
+
+LEMMAS["insert_numbers_without_holes"] = lemma_insert_numbers_without_holes
